@@ -665,7 +665,7 @@ func init() {
 					}
 					// the same search on the assembler of the second element of a list or map of a map-shaped
 					// type (a non-initial state of the element assembler, which implementations reuse)
-					if p := s.T(tn); (p.Kind == rs.TList || (p.Kind == rs.TMap && (p.KeyType == "" || p.KeyType == "String"))) && !p.ValNullable {
+					if p := s.T(tn); p.Kind == rs.TList || (p.Kind == rs.TMap && (p.KeyType == "" || p.KeyType == "String")) {
 						if vt := s.T(p.ValType); vt.Kind == rs.TStruct || vt.Kind == rs.TMap {
 							for _, repr := range []bool{false, true} {
 								jobs = append(jobs, job{eng, s, vt, repr, p})
